@@ -88,10 +88,21 @@ func FormatObjMetadata(obj object.ObjMetadata) (string, error) {
 	if obj.Name == "" {
 		return "", fmt.Errorf("invalid object metadata: name is empty")
 	}
+	var objStr string
 	if obj.Namespace != "" {
-		return fmt.Sprintf("%s/namespaces/%s/%s/%s", gk.Group, obj.Namespace, gk.Kind, obj.Name), nil
+		objStr = fmt.Sprintf("%s/namespaces/%s/%s/%s", gk.Group, obj.Namespace, gk.Kind, obj.Name)
+	} else {
+		objStr = fmt.Sprintf("%s/%s/%s", gk.Group, gk.Kind, obj.Name)
 	}
-	return fmt.Sprintf("%s/%s/%s", gk.Group, gk.Kind, obj.Name), nil
+	// Reject references that would not read back as the same object: a field
+	// containing a separator, or white space that parsing trims.
+	if strings.Contains(objStr, annotationSeparator) {
+		return "", fmt.Errorf("invalid object metadata: %q contains %q", objStr, annotationSeparator)
+	}
+	if parsed, err := ParseObjMetadata(objStr); err != nil || parsed != obj {
+		return "", fmt.Errorf("invalid object metadata: %q does not read back as the same object", objStr)
+	}
+	return objStr, nil
 }
 
 // ParseObjMetadata parses the passed string as a object metadata.
@@ -131,6 +142,11 @@ func ParseObjMetadata(objStr string) (object.ObjMetadata, error) {
 		namespace = fields[2]
 		kind = fields[3]
 		name = fields[4]
+	}
+
+	// name and kind may not be empty; the namespaced form needs a namespace
+	if kind == "" || name == "" || (len(fields) == numFieldsNamespacedScoped && namespace == "") {
+		return obj, fmt.Errorf("empty kind, name or namespace: %q", objStr)
 	}
 
 	id := object.ObjMetadata{
